@@ -44,6 +44,8 @@ def run(R):
         r8(R)
     if R.want("C04.R9"):
         r9(R)
+    if R.want("C04.R10"):
+        r10(R)
 
 
 # --------------------------------------------------------------------------------------------------
@@ -296,6 +298,64 @@ def r6(R):
         guards_ok = True
     R.check(bool(calls) and guards_ok, "C04.R6", TM, am.lineno, "TensorMap.add_map", "clear_cache() when name == 'UBI'",
             "replacing the UBI map through add_map / tm['UBI'] = ... leaves the old derived maps in place")
+
+
+# --------------------------------------------------------------------------------------------------
+TOL_CALLS = ("allclose", "isclose", "array_equiv", "assert_allclose")
+
+
+def tolerance_test(e):
+    """the expression decides by a tolerance: np.allclose / np.isclose / math.isclose with their default (1e-5 / 1e-8 / 1e-9) or literal
+    tolerances, or abs(x - c) < literal.  Returns a text, or None"""
+    for n_ in ast.walk(e):
+        if isinstance(n_, ast.Call) and (pyfacts.dotted(n_.func) or "").split(".")[-1] in TOL_CALLS:
+            return src(n_)
+        if isinstance(n_, ast.Compare) and len(n_.ops) == 1 and isinstance(n_.ops[0], (ast.Lt, ast.LtE)):
+            l, r = n_.left, n_.comparators[0]
+            has_abs = any(isinstance(c, ast.Call) and (pyfacts.dotted(c.func) or "").split(".")[-1] in ("abs", "fabs", "absolute") for c in ast.walk(l))
+            if has_abs and isinstance(r, ast.Constant) and isinstance(r.value, float) and 0 < r.value < 1:
+                return src(n_)
+    return None
+
+
+def r10(R):
+    """The cached quantities of a grain (UB, B, U, mt, rmt, unitcell) are functions of ubi alone that must agree with one another and
+    with unitcell / indexing to rounding.  A cached value stored under a *tolerance* test (np.allclose(cell[3:], 90) -> diagonal B) is
+    the value of a neighbouring lattice for every ubi inside the tolerance that is not exactly the special case, i.e. wrong by up to
+    the tolerance (1e-5 relative by default) - far above rounding, and U = (B.ubi)^T is then not orthogonal."""
+    R.rule("C04.R10", "grain: no lazily cached quantity (self._UB, _B, _U, _mt, _rmt, _unitcell) is computed by a formula selected by a tolerance "
+                      "test (np.allclose / np.isclose / abs(x - c) < eps): a special-case formula is exact only AT the special case")
+    m = pyfacts.module(R, GRAIN)
+    cls = m.cls("grain")
+    n = 0
+    for fn in cls.body:
+        if not (isinstance(fn, ast.FunctionDef) and any(pyfacts.dotted(d) == "property" for d in fn.decorator_list)):
+            continue
+        ifn = m.ifunc("grain.%s" % fn.name)
+        stores = [a for a in ast.walk(ifn) if isinstance(a, ast.Assign) and isinstance(a.targets[0], ast.Attribute)
+                  and src(a.targets[0]) in ("self._UB", "self._B", "self._U", "self._mt", "self._rmt", "self._unitcell")]
+        if not stores:
+            continue
+        cfg = pyfacts.PyCFG(ifn)
+        for a in stores:
+            nd = cfg.node_of(a)
+            if nd is None:
+                continue
+            n += 1
+            tol = []
+            for t_, pol in cfg.guards(nd):
+                while isinstance(t_, ast.UnaryOp) and isinstance(t_.op, ast.Not):
+                    t_, pol = t_.operand, not pol
+                tt = tolerance_test(t_)
+                if tt is not None and pol:        # the branch taken when the values are 'close'
+                    tol.append(tt)
+            R.check(not tol, "C04.R10", GRAIN, a.lineno, "grain.%s" % fn.name, "%s = %s" % (src(a.targets[0]), src(a.value)[:60]),
+                    "%s is stored from '%s' on a path selected by the tolerance test '%s': for a lattice inside the tolerance but not exactly at "
+                    "the special case this is the matrix of a different lattice, so B no longer agrees with unitcell(grain.unitcell).B / "
+                    "indexing.ubitoB, U = (B.ubi)^T is not orthogonal and U.B != UB beyond rounding"
+                    % (src(a.targets[0]), src(a.value)[:50], (tol or [""])[0][:60]),
+                    desc="%s:grain.%s %s is not selected by a tolerance test" % (GRAIN, fn.name, src(a.targets[0])))
+    R.floor("C04.R10", 6)
 
 
 # --------------------------------------------------------------------------------------------------
